@@ -65,7 +65,7 @@ def family_programs(ctx, quick):
         designs = designs[::8]
     for d in designs:
         out.append((d, "plain", "security:%s" % d["api"]["name"]))
-    for g in ("G1", "G2", "G3", "G4", "G5", "G6", "G7", "G8", "G9", "G10"):
+    for g in ("G1", "G2", "G3", "G4", "G5", "G6", "G7", "G8", "G9", "G10", "G11"):
         out.append((c08.design(g), "views/recursive-result-type" if g == "G4" else "plain", "views:" + g))
     return out + container_programs()
 
@@ -103,23 +103,25 @@ def run(ctx):
     ctx.mc("mc/MC_Toolchain", label="MC Toolchain")
     frac = float(os.environ.get("VERIF_FRAC") or (0.03 if quick else 1.0))
     shapes, seen = [], set()
-    for fam in ("req", "res"):
-        for v in hc.sample_shapes(hc.gen_vectors(ctx, fam, 1, 1), frac, ctx.seed, strata="coarse"):
+    npair = 40 if quick else 600
+
+    def family_shapes(fam):
+        """(single-attribute shapes, two-attribute shapes) of one family: the same shape twice (one alias / nested type
+        referenced by two attributes), and two attributes in one non-body location"""
+        singles = hc.sample_shapes(hc.gen_vectors(ctx, fam, 1, 1), frac, ctx.seed, strata="coarse")
+        allv = hc.gen_vectors(ctx, fam, 1, 1, label="Gen %s 1x1 (for pairs)" % fam)
+        return singles, [v for mode in ("twin", "sameloc") for v in hc.combine_cases(ctx, allv, npair, ctx.seed, fam=fam, mode=mode)]
+    # the enumerations are independent TLC runs: both families and the whole-design programs side by side
+    pool = cf.ThreadPoolExecutor(max_workers=3)
+    fam_future = pool.submit(family_programs, ctx, quick)
+    per_fam = list(pool.map(family_shapes, ("req", "res")))
+    pool.shutdown(wait=False)
+    for vs in [per_fam[0][0], per_fam[1][0], per_fam[0][1], per_fam[1][1]]:
+        for v in vs:
             k = hg.shape_key(v)
             if k not in seen:
                 seen.add(k)
                 shapes.append({"pa": v["pa"], "ra": v["ra"], "tagged": v.get("tagged", False)})
-    # two-attribute methods: the same shape twice (one alias / nested type referenced by two attributes), and two
-    # attributes in one non-body location
-    npair = 40 if quick else 600
-    for fam in ("req", "res"):
-        allv = hc.gen_vectors(ctx, fam, 1, 1, label="Gen %s 1x1 (for pairs)" % fam)
-        for mode in ("twin", "sameloc"):
-            for v in hc.combine_cases(ctx, allv, npair, ctx.seed, fam=fam, mode=mode):
-                k = hg.shape_key(v)
-                if k not in seen:
-                    seen.add(k)
-                    shapes.append({"pa": v["pa"], "ra": v["ra"], "tagged": v.get("tagged", False)})
     designs, where = hg.pack_designs(shapes, 40)
     for d in designs:
         d["api"]["servers"] = 1
@@ -191,7 +193,7 @@ def run(ctx):
             lines.append({"ev": "stage", "stage": s, "outcome": o})
             owners.append(si)
     # whole-design programs of the other families
-    fam = family_programs(ctx, quick)
+    fam = fam_future.result()
     fdesigns = []
     for d, cls, label in fam:
         d = json.loads(json.dumps(d))
